@@ -181,6 +181,16 @@ PROPS = {
         "partial": "IEEE-754 rounding inside from_geo/as_geo_bbox is tested, not proved; release-profile wrap-around of overflowing u32 arithmetic is not modelled (dev-profile overflow panics are)",
         "assumptions": ["boxes are observed through the public fields of TileBBox; levels <= 31"],
     },
+    "C16": {
+        "cmd": "c16",
+        "theorems": ["C16_gen_index_variant", "C16_directory_any_encoder", "C16_find_tile_is_spec", "C16_find_in_run", "C16_coverage_complete", "C16_tile_id", "C16_versatiles_listed_block", "C16_versatiles_unlisted"],
+        "nontrivial": lambda l: (l.startswith("pmdir.find") and not l.endswith("none")) or (l.startswith("pmdir.") and ";" in l) or l.startswith("idcoord") or (l.startswith("tileid") and not l.endswith("err")),
+        "rule": "tile sets (consecutive Hilbert ids sharing a payload, also across a zoom boundary; plus the C01 shapes) are encoded by encoders written for the harness from the published layouts, using the freedoms the repository's writers never use: versatiles - sparse block index, partial or full block boxes, blocks and blobs in any order, padding, shared ranges; PMTiles - run lengths (incl. runs that continue into the next zoom level), shared offsets, one or two levels of leaf directories of arbitrary size, optional use of the offset-0 shorthand, internal compression none or gzip; MBTiles - TMS rows via plain SQL, `tiles` as a table or as a view over map/images, any row order; tar - members with or without './', directory members, any order; directory tree. Every file is opened with get_reader and must give the encoded tiles, exact coverage (PMTiles, MBTiles, tar, directory), streams, lookups of neighbours/parents/children, format and compression. Correspondence lines: the implementation's find_tile on every directory of the encoded trees, from_blob on independently encoded and mutated directories, tile ids in both directions - against the extracted Coq functions",
+        "level_text": "Proved in Coq: from_blob inverts every admissible directory serialisation (any use of the contiguous-offset shorthand); find_tile equals the published lookup rule on every directory with increasing ids (binary search invariant), finds the entry of every run for every id inside it and every leaf pointer for the ids behind it; the coverage scan visits every id of every run; the tile-id loops are inverse on all levels; the versatiles reader answers from the listed block for any block list with unique block coordinates (sparse, partial blocks) and answers None elsewhere.",
+        "level_note": "Trusted: Coq kernel; models coq/Model/{PMDir,TileId,VTFormat}.v; extraction + driver; the harness's encoders (they define what 'valid by the published layout' means here) and the flate2/brotli/tar/SQLite libraries. Print Assumptions: closed.",
+        "partial": "the multi-level directory walk (pm_lookup through leaf directories, depth limit 3) and the byte-level parsing of versatiles blocks are tested end-to-end against the encoders, the theorems cover one directory / one block list; MBTiles and tar/directory acceptance is tested, not modelled",
+        "harness_timeout": 1500,
+    },
     "C17": {
         "cmd": "c17",
         "theorems": ["C17_gen_hex_escape_checked", "C17_string_roundtrip", "C17_value_roundtrip"],
